@@ -81,7 +81,7 @@ CHECKS = [
      "note": "Trusted: vlib/monitor.py (harness-side recomputation of trajectories with the code's own Time subtraction), instance-attribute wrappers of vlib/engine.py, private reads Mediator._state_handler/_scheduler/_activator/_input_output_handler and Activator._taggers/_internal_states. Since the repair of the nearby-cells ordering (fix 55b0c76) runs with cell systems are a pure function of the drawn case; should Hypothesis still report a non-reproducible failure the first observed violation is reported with a note. Generated configurations edit parameters of shipped files only; hard_disk_dipoles(.ini|_cells.ini) need MDAnalysis and are not runnable here."},
     {"id": "C08", "engine": "history-monitor", "design_ref": "DESIGN.md §3 C08, §2.2",
      "technique": "property-based testing over generated run histories (Hypothesis draws configuration, seed, budget) with a per-event invariant monitor on the real mediator loop",
-     "text": 'At every commit of an interaction or cell-veto handler the in-state snapshot taken when its candidate was computed is compared with the global state just before the commit: same velocities, same straight-line trajectory, same positions of resting units. Sampling intervals are drawn small so that candidates regularly survive intervening events. The entry the scheduler returns must carry the handler's current candidate time, and every time the mediator asks for the next event each candidate of such a handler still pending in the scheduler is compared with the global state in the same way (no candidate survives a change of motion of a unit it depends on).',
+     "text": 'At every commit of an interaction or cell-veto handler the in-state snapshot taken when its candidate was computed is compared with the global state just before the commit: same velocities, same straight-line trajectory, same positions of resting units. Sampling intervals are drawn small so that candidates regularly survive intervening events. The entry the scheduler returns must carry the current candidate time of its handler, and every time the mediator asks for the next event each candidate of such a handler still pending in the scheduler is compared with the global state in the same way (no candidate survives a change of motion of a unit it depends on).',
      "note": "Trusted: vlib/monitor.py (harness-side recomputation of trajectories with the code's own Time subtraction), instance-attribute wrappers of vlib/engine.py, private reads Mediator._state_handler/_scheduler/_activator/_input_output_handler and Activator._taggers/_internal_states. Since the repair of the nearby-cells ordering (fix 55b0c76) runs with cell systems are a pure function of the drawn case; should Hypothesis still report a non-reproducible failure the first observed violation is reported with a note. Generated configurations edit parameters of shipped files only; hard_disk_dipoles(.ini|_cells.ini) need MDAnalysis and are not runnable here."},
     {"id": "C09", "engine": "history-monitor", "design_ref": "DESIGN.md §3 C09, §2.2",
      "technique": "property-based testing over generated run histories (Hypothesis draws configuration, seed, budget) with a per-event invariant monitor on the real mediator loop",
